@@ -20,7 +20,7 @@ META = {
     "assumptions": ["the layout of the failure report is not judged: it must be a str and, when there are "
                     "failures, some line must contain the elements of each failing path in order",
                     "frac_rules_tested is compared for schemas with >= 1 rule only (undefined for the empty schema)"],
-    "bounds": {"quick": {"rules_per_schema": "0-2", "documents": 20},
+    "bounds": {"quick": {"rules_per_schema": "0-2 over the whole pool, 3-4 over a 5-rule sub-pool", "documents": 20},
                "thorough": {"rules_per_schema": "0-4", "documents": 20}},
 }
 
@@ -55,6 +55,10 @@ def multisets(tier):
     out = []
     for k in range(n + 1):
         out.extend(itertools.combinations_with_replacement(range(len(POOL)), k))
+    if tier == "quick":
+        # three and four rules at the quick tier too: every multiset over a 5-rule sub-pool (path lengths 0, 1, 1, 2, 1)
+        for k in (3, 4):
+            out.extend(itertools.combinations_with_replacement((1, 3, 6, 8, 10), k))
     return out
 
 
